@@ -55,6 +55,8 @@ func C13(c *Ctx) {
 	r.Assumptions = []string{"os.Exit does not return", "with -no-recover the user asks for propagated panics"}
 	r.Rule("C13-a", "every crash construct in the generator packages is listed as impossible with a validated side condition, or is reported")
 	r.Rule("C13-b", "main: each call whose error is assigned (flag parsing, ParseReader, BuildParser, imports.Process, Write, Close, Open) is followed by `if err != nil { …; exit(k) }` with constant k != 0; exit(0) occurs only under the help flags; argError/input/output exit non-zero")
+	r.Rule("C13-d", "every condition-less `for { … }` loop in the generator that consumes input through a reader (ReadRune / ReadByte / Read…) tests the reader's error result and leaves the loop on it: otherwise the loop spins forever once the input is exhausted")
+	r.Rule("C13-e", "pair invariant of CharClassMatcher.Ranges (low/high pairs): every store to a Ranges field keeps the length even — nil, a copy or concatenation of pair slices, a two-element append, or a local slice built only by two-element appends; the only single-element appends are the start/end pair of the range state machine in CharClassMatcher.parse. The stride-2 loops that read Ranges[i+1] (optimizer, builder, runtime) rely on it")
 	r.Rule("C13-c", "main passes Recover(!*noRecoverFlag) to ParseReader")
 
 	g := c.G()
@@ -99,6 +101,8 @@ func C13(c *Ctx) {
 		}
 	}
 	r.MinRule("C13-a", 20)
+	c13ReaderLoops(c, g)
+	c13RangePairs(c, g)
 	c13Exit(c, g)
 	if c.Thorough() {
 		c13CrossRef(c, g)
@@ -770,4 +774,185 @@ func c13CrossRef(c *Ctx, g *load.G) {
 		x[tool[0]] = keep
 	}
 	r.Analysed["cross_reference_only"] = x
+}
+
+// c13ReaderLoops: unbounded loops that read from an io reader must stop at end of input.
+func c13ReaderLoops(c *Ctx, g *load.G) {
+	r := c.R
+	n := 0
+	for _, sfx := range []string{"", "ast", "builder"} {
+		p := g.Pkg(sfx)
+		for _, fd := range load.AllFuncDecls(p) {
+			if fd.Body == nil || strings.HasSuffix(g.Fset.Position(fd.Pos()).Filename, "/pigeon.go") {
+				continue
+			}
+			li := 0
+			ast.Inspect(fd.Body, func(nd ast.Node) bool {
+				loop, ok := nd.(*ast.ForStmt)
+				if !ok || loop.Cond != nil {
+					return true
+				}
+				// reader calls directly in this loop (not in nested loops)
+				var reads []*ast.AssignStmt
+				var walk func(list []ast.Stmt)
+				walk = func(list []ast.Stmt) {
+					for _, st := range list {
+						switch x := st.(type) {
+						case *ast.AssignStmt:
+							if len(x.Rhs) == 1 {
+								if ce, ok := x.Rhs[0].(*ast.CallExpr); ok && strings.HasPrefix(callSel(ce), "Read") {
+									reads = append(reads, x)
+								}
+							}
+						case *ast.IfStmt:
+							walk(x.Body.List)
+							if eb, ok := x.Else.(*ast.BlockStmt); ok {
+								walk(eb.List)
+							}
+						case *ast.BlockStmt:
+							walk(x.List)
+						case *ast.SwitchStmt:
+							for _, cl := range x.Body.List {
+								walk(cl.(*ast.CaseClause).Body)
+							}
+						}
+					}
+				}
+				walk(loop.Body.List)
+				if len(reads) == 0 {
+					return true
+				}
+				li++
+				n++
+				construct := fmt.Sprintf("G.%s.%s:reader-loop#%d", p.Types.Name(), fd.Name.Name, li)
+				// the loop terminates at end of input iff some read executed on every iteration (a statement directly in
+				// the loop body) has its error tested with an exit
+				okLoop := false
+				why := "no read at the top level of the loop body has its error result tested with an exit"
+				top := map[ast.Stmt]bool{}
+				for _, st := range loop.Body.List {
+					top[st] = true
+				}
+				for _, rd := range reads {
+					if !top[ast.Stmt(rd)] {
+						continue
+					}
+					errVar := nospace(rd.Lhs[len(rd.Lhs)-1])
+					if errVar == "_" {
+						why = "the error result of " + nospace(rd.Rhs[0]) + " is discarded"
+						continue
+					}
+					ast.Inspect(loop.Body, func(m ast.Node) bool {
+						is, ok := m.(*ast.IfStmt)
+						if !ok || !strings.Contains(nospace(is.Cond), errVar+"!=nil") {
+							return true
+						}
+						ast.Inspect(is.Body, func(k ast.Node) bool {
+							switch k.(type) {
+							case *ast.BranchStmt, *ast.ReturnStmt:
+								okLoop = true
+							}
+							return true
+						})
+						return true
+					})
+				}
+				r.Check(okLoop, "C13-d", construct, "", g.Where(loop.Pos()), "the loop leaves on a reader error / end of input", why+": once the input is exhausted ReadRune keeps returning (0, io.EOF) and the loop never terminates (pigeon hangs on `A = [\\p{L]]`)")
+				return true
+			})
+		}
+	}
+	r.Min("C13-d reader loops", 2, n)
+}
+
+// c13RangePairs: every writer of a CharClassMatcher.Ranges field preserves the pair structure.
+func c13RangePairs(c *Ctx, g *load.G) {
+	r := c.R
+	n := 0
+	for _, sfx := range []string{"ast", "builder", ""} {
+		p := g.Pkg(sfx)
+		for _, fd := range load.AllFuncDecls(p) {
+			if fd.Body == nil || strings.HasSuffix(g.Fset.Position(fd.Pos()).Filename, "/pigeon.go") {
+				continue
+			}
+			fn := fd.Name.Name
+			// local slices built only by two-element appends (or make) in this function
+			pairLocal := func(name string) bool {
+				ok, any := true, false
+				ast.Inspect(fd.Body, func(nd ast.Node) bool {
+					as, isAs := nd.(*ast.AssignStmt)
+					if !isAs || len(as.Lhs) != 1 || nospace(as.Lhs[0]) != name {
+						return true
+					}
+					any = true
+					rhs := as.Rhs[0]
+					if ce, isCall := rhs.(*ast.CallExpr); isCall {
+						switch callName(ce) {
+						case "make":
+							if len(ce.Args) >= 2 && nospace(ce.Args[1]) == "0" {
+								return true
+							}
+						case "append":
+							if nospace(ce.Args[0]) == name && len(ce.Args) == 3 && !ce.Ellipsis.IsValid() {
+								return true
+							}
+						}
+					}
+					ok = false
+					return true
+				})
+				return ok && any
+			}
+			check := func(pos token.Pos, target string, rhs ast.Expr) {
+				n++
+				t := nospace(rhs)
+				okStore := false
+				why := ""
+				switch x := rhs.(type) {
+				case *ast.Ident:
+					okStore = x.Name == "nil" || pairLocal(x.Name)
+					why = "assigned from " + x.Name + ", which is not built by two-element appends only"
+				case *ast.CallExpr:
+					if callName(x) == "append" {
+						base := nospace(x.Args[0])
+						isSelfOrEmpty := base == target || base == "[]rune{}"
+						switch {
+						case isSelfOrEmpty && x.Ellipsis.IsValid() && len(x.Args) == 2 && strings.HasSuffix(nospace(x.Args[1]), ".Ranges"):
+							okStore = true // concatenation / copy of a pair slice
+						case isSelfOrEmpty && !x.Ellipsis.IsValid() && len(x.Args) == 3:
+							okStore = true // one pair
+						case isSelfOrEmpty && !x.Ellipsis.IsValid() && len(x.Args) == 2 && fn == "parse":
+							okStore = true // start / end of the range state machine (each start is followed by its end)
+						default:
+							why = "append form " + t + " does not add whole pairs"
+						}
+					} else {
+						why = "result of " + callName(x) + "(…) is not known to keep low/high pairs together"
+					}
+				default:
+					why = "value " + t
+				}
+				r.Check(okStore, "C13-e", fmt.Sprintf("G.%s.%s:Ranges-store(%s)", p.Types.Name(), fn, t), "", g.Where(pos), "keeps the low/high pair structure",
+					why+": an odd-length Ranges makes the stride-2 loops read Ranges[i+1] out of range (Go panic trace) or pair the wrong end-points")
+			}
+			ast.Inspect(fd.Body, func(nd ast.Node) bool {
+				switch x := nd.(type) {
+				case *ast.AssignStmt:
+					for i, l := range x.Lhs {
+						if sel, ok := l.(*ast.SelectorExpr); ok && sel.Sel.Name == "Ranges" && i < len(x.Rhs) {
+							if namedOf(p.TypesInfo.TypeOf(sel.X)) == "CharClassMatcher" {
+								check(x.Pos(), nospace(l), x.Rhs[i])
+							}
+						}
+					}
+				case *ast.KeyValueExpr:
+					if nospace(x.Key) == "Ranges" {
+						check(x.Pos(), "[]rune{}", x.Value)
+					}
+				}
+				return true
+			})
+		}
+	}
+	r.Min("C13-e Ranges writers", 5, n)
 }
